@@ -520,7 +520,7 @@ var c15Seq int64
 var c15Unsettled int32 // deliveries that were never settled: after 3 the remaining scenarios are skipped (fail fast)
 
 func (s *c15Scenario) run(sIdx int) ([]*c15Delivery, error) {
-	router, err := message.NewRouter(message.RouterConfig{CloseTimeout: 5 * time.Second}, watermill.NopLogger{})
+	router, err := message.NewRouter(message.RouterConfig{CloseTimeout: 60 * time.Second}, watermill.NopLogger{})
 	if err != nil {
 		return nil, err
 	}
@@ -766,7 +766,7 @@ func (s *c15Scenario) run(sIdx int) ([]*c15Delivery, error) {
 	go func() { runErr <- router.Run(ctx) }()
 	select {
 	case <-router.Running():
-	case <-time.After(10 * time.Second):
+	case <-time.After(60 * time.Second):
 		return nil, errors.New("router did not start")
 	}
 	var wg sync.WaitGroup
@@ -775,11 +775,11 @@ func (s *c15Scenario) run(sIdx int) ([]*c15Delivery, error) {
 		go func(d *c15Delivery) {
 			defer wg.Done()
 			hid := d.subIdx
-			if subs[hid] == nil || !subs[hid].Emit(topics[hid], d.msg, 10*time.Second) {
+			if subs[hid] == nil || !subs[hid].Emit(topics[hid], d.msg, 30*time.Second) {
 				d.anomaly("message not taken by the router handler (no subscription on the generated topic)")
 				return
 			}
-			d.Final = script.WaitSettled(d.msg, 10*time.Second)
+			d.Final = script.WaitSettled(d.msg, 30*time.Second)
 			if d.Final == 0 {
 				atomic.AddInt32(&c15Unsettled, 1)
 			}
@@ -791,7 +791,7 @@ func (s *c15Scenario) run(sIdx int) ([]*c15Delivery, error) {
 	}
 	select {
 	case <-runErr:
-	case <-time.After(10 * time.Second):
+	case <-time.After(60 * time.Second):
 		return nil, errors.New("Run did not return after Close")
 	}
 	if s.lost > 0 {
